@@ -436,6 +436,7 @@ static void gen_history(Rng &r, Plan &plan) {
     }
     // tier 3: in a third of the histories the violating calls are arbitrary API calls with a documented
     // violation (whole-API generators), so that every function's own error paths are dispatched
+    std::vector<uint32_t> tops(n, 64);
     if (r.chance(1, 3)) {
         GenCfg g;
         g.faults = false;
@@ -443,7 +444,7 @@ static void gen_history(Rng &r, Plan &plan) {
         g.force_violation = true;
         for (int i = 0; i < n; i++) {
             TaskPlan &tp = plan.tasks[i];
-            uint32_t top = 64;
+            uint32_t &top = tops[i];
             std::vector<Op> out;
             for (Op &op : tp.ops) {
                 if (op.fn != OP_VIOL_STR && op.fn != OP_VIOL_MEM) { out.push_back(op); continue; }
@@ -463,6 +464,30 @@ static void gen_history(Rng &r, Plan &plan) {
             }
             if (out.size() > 24) out.resize(24);
             tp.ops = out;
+        }
+    }
+    // neutral calls: in a third of the histories every thread also makes a few ordinary, non-violating library calls
+    // (whole API) between its registrations and violations. The rule says they change nothing: whatever a call does to
+    // the registration state behind the caller's back shows in the dispatches and return values that follow.
+    if (r.chance(1, 3)) {
+        GenCfg g;
+        g.faults = false;
+        g.violations = false;
+        for (int i = 0; i < n; i++) {
+            TaskPlan &tp = plan.tasks[i];
+            uint32_t &top = tops[i];
+            int cnt = 1 + r.below(3);
+            for (int c = 0; c < cnt && tp.ops.size() < 28; c++) {
+                TaskPlan tmp;
+                uint32_t save = top;
+                bool ok = gen_op(r, g_api_fams[r.below(sizeof g_api_fams / sizeof *g_api_fams)], tmp, &top, g, false, 0) && !tmp.ops.empty();
+                if (ok)
+                    for (Op &x : tmp.ops)
+                        if (api_kind(x.fn) < 0) ok = false;
+                if (!ok) { top = save; continue; }
+                size_t pos = r.below((uint32_t)tp.ops.size() + 1);
+                tp.ops.insert(tp.ops.begin() + pos, tmp.ops.begin(), tmp.ops.end());
+            }
         }
     }
     for (int i = roots; i < n; i++) {
